@@ -7,7 +7,8 @@ import (
 
 // genRemote: control skeletons of the functions the Remote model (C20) was written
 // from.  A skeleton is the sequence of statements of a function body as normalised
-// source text, nesting shown by a "| " prefix per level, `r.debugf(…)` calls left out:
+// source text, nesting shown by a "| " prefix per level, `r.debugf(…)` calls left out,
+// long statements wrapped (continuation lines start with `\ `):
 // guard conditions, assignments, returns, the order of the three cache writes.  No
 // line numbers, so moving or reformatting code does not disturb it; changing a
 // condition, an order or a returned error does.
@@ -34,7 +35,7 @@ func genRemote() {
 			}
 			lines = kept
 		}
-		l.strList(def, lines)
+		l.strList(def, wrapLines(lines, 96))
 	}
 	emit("skeleton", tf, "Reader.readRemoteNodeContent", nil)
 	emit("readNodeContent", tf, "Reader.readNodeContent", nil)
@@ -55,6 +56,27 @@ func genRemote() {
 		return contains(s, "e.Setup()") || contains(s, "ClearCache") || contains(s, "cachePath")
 	})
 	l.write()
+}
+
+// wrapLines breaks long statements into pieces of at most n bytes (continuations start
+// with `\ `) so that the Lean side can compare them cheaply by `decide`.
+func wrapLines(lines []string, n int) []string {
+	var out []string
+	for _, ln := range lines {
+		for len(ln) > n {
+			cut := n
+			for cut > n/2 && ln[cut] != ' ' {
+				cut--
+			}
+			for cut > 0 && ln[cut]&0xC0 == 0x80 { // not inside a UTF-8 sequence
+				cut--
+			}
+			out = append(out, ln[:cut])
+			ln = "\\ " + strings.TrimLeft(ln[cut:], " ")
+		}
+		out = append(out, ln)
+	}
+	return out
 }
 
 func skeleton(stmts []ast.Stmt, depth int) []string {
